@@ -92,8 +92,7 @@ int main()
 	// the global logger is not the subject here: library threads that log through it allocate from FastFlow's per-thread allocator, whose
 	// deregistration at thread exit is occasionally reported by ASan (heap-use-after-free in ff/allocator.hpp) - keep it silent
 	FIX8::GlobalLogger::set_levels(FIX8::Logger::Levels(FIX8::Logger::None));
-	char tmpl[] = "/tmp/verif_store_XXXXXX";
-	g_dir = mkdtemp(tmpl);
+	g_dir = scratch_dir("store");
 	Persister *p(nullptr); FP *fp(nullptr); bool isfile(false); unsigned rot(0);
 	Sess *sess(new Sess(SessionID(f8String("FIX.4.2"), f8String("A"), f8String("B"))));
 	std::string line;
